@@ -105,6 +105,7 @@ func valEq(a, b interface{}) bool {
 
 type decOutcome struct {
 	vals    []interface{}
+	errText string
 	ec      string
 	rem     []byte
 	panicAt string
@@ -150,6 +151,7 @@ func decodeAll(dec *hio.Decoder, mks []func() interface{}) (o decOutcome) {
 		o.vals = append(o.vals, reflect.ValueOf(p).Elem().Interface())
 	}
 	o.ec = errClass(dec.Error)
+	o.errText = fmt.Sprint(dec.Error)
 	o.rem = dec.Remains()
 	return
 }
@@ -245,7 +247,7 @@ func scenC05(r *Run) {
 			return true
 		}
 		if got.ec != ref.ec {
-			r.Fail("C05:error-outcome-differs:"+ref.ec+"-vs-"+got.ec, "%s: streaming ends with error class %s after %d values, in memory with %s after %d", where, got.ec, len(got.vals), ref.ec, len(ref.vals))
+			r.Fail("C05:error-outcome-differs:"+ref.ec+"-vs-"+got.ec, "%s: streaming ends with error class %s (%s) after %d values, in memory with %s (%s) after %d", where, got.ec, got.errText, len(got.vals), ref.ec, ref.errText, len(ref.vals))
 			return false
 		}
 		if len(got.vals) != len(ref.vals) {
